@@ -84,6 +84,12 @@ func refKind(t int) directive.Enumeration {
 		return directive.URL
 	case tGetNm:
 		return directive.Get
+	case tTypeRegex, tTypeRefT, tTypeIdObj:
+		return directive.Type
+	case tPathRefT:
+		return directive.Path
+	case tRespObjRef:
+		return directive.HTTPResponseCode
 	case tParams:
 		return directive.Params
 	case tResult:
